@@ -27,8 +27,8 @@ import (
 func init() {
 	register(Property{ID: "C24", Level: "other", Run: runC24,
 		Technique: "static analysis: structural matching of SSA expression trees (sibling agreement of the scaling helpers), interval bounds from constants/static types/call-site summaries at every call site, whole-module scan for unsplit multiply-then-divide",
-		Text: "Decides: (1) every function of the module whose result is built from a multiplication and a division of its integer parameters (the scaling helpers and the two MP4 duration converters) computes exactly (v/d)*m + ((v%d)*m)/d on 64-bit signed integers with only value-preserving conversions, which is trunc(v*m/d) whenever (d-1)*m < 2^63 and the result is representable; (2) at every call site of a helper, directly or through a wrapper parameter, the multiplier and divisor are constants, uint32-typed time scales or clock rates, so that (d-1)*m < 2^63; (2b) no subtraction in the module has two truncated scalings as operands (traced through conversions, phis, locals, wrappers and struct fields whose every store is a scaling): a converted elapsed time is the scaling of the tick difference, not the difference of two scalings, which can be one unit off; (3) every other 64-bit multiply-then-divide in the module has a product bounded below 2^63 by constants and static types. Not decided: that divisors are non-zero (crash property), value correctness of the rates passed, float conversions (none exist in the anchored code).",
-		Note: "assumption: clock rates / sample rates returned by format.ClockRate() and stored in int-typed *Rate/TimeScale fields are < 2^31 (the remainder product of two non-constant rates needs it); integer semantics of Go (truncated division)"})
+		Text:      "Decides: (1) every function of the module whose result is built from a multiplication and a division of its integer parameters (the scaling helpers and the two MP4 duration converters) computes exactly (v/d)*m + ((v%d)*m)/d on 64-bit signed integers with only value-preserving conversions, which is trunc(v*m/d) whenever (d-1)*m < 2^63 and the result is representable; (2) at every call site of a helper, directly or through a wrapper parameter, the multiplier and divisor are constants, uint32-typed time scales or clock rates, so that (d-1)*m < 2^63; (2b) no subtraction in the module has two truncated scalings as operands (traced through conversions, phis, locals, wrappers and struct fields whose every store is a scaling): a converted elapsed time is the scaling of the tick difference, not the difference of two scalings, which can be one unit off; (3) every other 64-bit multiply-then-divide in the module has a product bounded below 2^63 by constants and static types. Not decided: that divisors are non-zero (crash property), value correctness of the rates passed, float conversions (none exist in the anchored code).",
+		Note:      "assumption: clock rates / sample rates returned by format.ClockRate() and stored in int-typed *Rate/TimeScale fields are < 2^31 (the remainder product of two non-constant rates needs it); integer semantics of Go (truncated division)"})
 	addMutants(
 		Mutant{"C24", "stream-helper-unsplit", "internal/stream/stream_format.go",
 			"	secs := v / d\n	dec := v % d\n	return (secs*m + dec*m/d)", "	return v * m / d", "C24.helper"},
